@@ -319,6 +319,9 @@ def read_cgsmiles(pattern):
                         # store the previous anchor so we can do the math for nested
                         # branches
                         prev_anchor = ref_anchor
+                    # the next copy of the branch continues from the anchor of
+                    # this copy and not from the last nested branch
+                    prev_node = base_anchor
                 # all branches added; then go back to the base anchor
                 prev_node = base_anchor
             #================================================
